@@ -28,6 +28,13 @@ What is modelled in Lean and what is recorded (see props_registry.d/C09.json tru
     lines.  As in eng_sched, the queue each `_find_placements` call receives, the values
     `IdentityGroup.acquire` popped and the order of `Cell.schedule()`'s placement list are recorded
     and passed to the model.
+  * DERIVED, tied per call (TmVerif.LoaderOps, `fops <handler> ...` lines): the CALL LISTS of load_server, remove_server,
+    reload_server, adjust_server_state, set_server_valid_until, adjust_presence, load_app, load_identity_groups and the
+    flags _handle_apps_blacklist_event leaves.  The handler is wrapped, its inputs are captured at the call boundary
+    (stored records as the real backend returns them, loader tables before the call), it runs, and the lines recorded
+    while it ran (calls into the cell, writes to modelled paths, modelled sub-operations) are the expected output of a
+    stateless driver line that derives the list from the inputs.  Counted per handler in the tags `fops:<handler>`.
+    Still only recorded: load_allocations, load_buckets / load_cell, load_partitions, the state event / freeze.
 After every modelled operation and after every event the model's output (storage writes of the
 operation, full cell dump, full store dump) is compared with the real objects.
 
@@ -783,6 +790,7 @@ def _install(w):
     def mk_rb_add(orig):
         def add(self, server):
             orig(self, server)
+            w.vu_log.append((server.name, int(server.valid_until)))
             if server.parent is not None:
                 w.prim('validuntil %d %d' % (sid_of(server.name), int(server.valid_until)))
         return add
@@ -880,10 +888,17 @@ def _install(w):
                 data = self.backend.get_default('/servers/' + servername)
                 w.gone_ctx = 'record-changed' if data else 'record-gone'
                 w.stats['remove_server:' + w.gone_ctx] += 1
+            on = _fops_on(self)
+            lvl, i0, loaded = w.fops_lvl, len(w.run.lines), servername in self.servers
+            w.fops_lvl += 1
             try:
-                return orig(self, servername)
+                r = orig(self, servername)
             finally:
                 w.gone_ctx = None
+                w.fops_lvl -= 1
+            if on:
+                _fops('remove', '%d %d' % (sid_of(servername), 1 if loaded else 0), i0, lvl)
+            return r
         return remove_server
     patch(Loader, 'remove_server', mk_remove_server)
 
@@ -902,6 +917,93 @@ def _install(w):
 
     def _live(self):
         return w.enabled and self is w.m
+
+
+    # ---- handler level (TmVerif.LoaderOps): per-call correspondence of the CALL LISTS ---------------------------
+    # the inputs of a handler are captured at its call boundary (stored records as the real backend returns them,
+    # loader tables before the call); the lines recorded while it runs (calls into the cell, writes to modelled
+    # paths, modelled sub-operations) are the expected output of the stateless `fops <handler> ...` line.
+    _FOPS_KINDS = ('server', 'detach', 'removeall', 'state', 'validuntil', 'app', 'updapp', 'bl', 'idg', 'rmidg',
+                   'bucket', 'restoreone', 'mrmapp', 'rmapp', 'rmserver')
+    w.fops_lvl = 0
+    w.pres_subs = None
+    w.vu_log = []
+    orig_encode = w.loader_mod.traits.encode
+
+    def _fops_on(self):
+        return _live(self) and w.depth == 0
+
+    def _calls_since(i0):
+        out = []
+        for ln in w.run.lines[i0:]:
+            k = ln.split(' ', 1)[0]
+            if k in _FOPS_KINDS or (k == 'w' and ln[2:5] in ('mk:', 'pP:', 'dR:')):
+                out.append(ln)
+        return ';'.join(out) or '-'
+
+    def _fops(handler, tok, i0, lvl, expected=None):
+        w.run.op('fops %s %s' % (handler, tok), _calls_since(i0) if expected is None else expected)
+        w.stats['fops:' + handler] += 1
+        if lvl == 1 and w.pres_subs is not None:
+            w.pres_subs.append('%s|%s' % (handler, tok.replace(' ', '|')))
+
+    def _rec_tok(rec):
+        return '%s %s' % (rec['state'], _i(rec['since'])) if rec else '- 0'
+
+    def _vu_tok(servername, v0):
+        got = [v for n, v in w.vu_log[v0:] if n == servername]
+        return '%d' % got[-1] if got else '~'
+
+    def _load_in(self, servername):
+        """Inputs of load_server at the call boundary (all but the recorded reboot-bucket choice)."""
+        data = self.backend.get_default(z.path.server(servername))
+        if data:
+            cap = w.loader_mod.resources(data)
+            mask = orig_encode(dict(self.trait_codes), data.get('traits', []), add_new=True)[0]
+            pb = self.buckets.get(data.get('parent'))
+            rec = '%d,%d,%d,%d,%d,%d' % (int(cap[0]), int(cap[1]), int(cap[2]),
+                                         LABELS.get(data.get('partition') or '_default', 9), mask,
+                                         w.bid(pb) if pb is not None else 0)
+            pl = pb is not None
+        else:
+            rec, pl = '~', False
+        pnode = z.path.placement(servername)
+        return '%s %d %d %s %d %s' % (rec, 1 if pl else 0, 1 if self.backend.exists(pnode) else 0,
+                                      _rec_tok(self.backend.get_default(pnode)),
+                                      1 if self.backend.exists(z.path.server_presence(servername)) else 0,
+                                      _i(_time.time()))
+
+    def mk_load_server(orig):
+        def load_server(self, servername):
+            if not _fops_on(self):
+                return orig(self, servername)
+            lvl, i0, v0 = w.fops_lvl, len(w.run.lines), len(w.vu_log)
+            tok = _load_in(self, servername)
+            w.fops_lvl += 1
+            try:
+                r = orig(self, servername)
+            finally:
+                w.fops_lvl -= 1
+            _fops('load', '%d %s %s' % (sid_of(servername), tok, _vu_tok(servername, v0)), i0, lvl)
+            return r
+        return load_server
+    patch(Loader, 'load_server', mk_load_server)
+
+    def mk_valid_until(orig):
+        def set_server_valid_until(self, servername):
+            if not _fops_on(self) or servername not in self.servers:
+                return orig(self, servername)
+            lvl, i0, v0 = w.fops_lvl, len(w.run.lines), len(w.vu_log)
+            present = bool(self.backend.exists(z.path.server_presence(servername)))
+            w.fops_lvl += 1
+            try:
+                r = orig(self, servername)
+            finally:
+                w.fops_lvl -= 1
+            _fops('validuntil', '%d %d %s' % (sid_of(servername), 1 if present else 0, _vu_tok(servername, v0)), i0, lvl)
+            return r
+        return set_server_valid_until
+    patch(Loader, 'set_server_valid_until', mk_valid_until)
 
     def mk_record_state(orig):
         def _record_server_state(self, servername):
@@ -925,7 +1027,15 @@ def _install(w):
             now = _time.time()
             n0 = len(w.rec_calls)
             w.adj_log.append((servername, w.in_reload > 0))
-            r = orig(self, servername)
+            lvl, i0 = w.fops_lvl, len(w.run.lines)
+            w.fops_lvl += 1
+            try:
+                r = orig(self, servername)
+            finally:
+                w.fops_lvl -= 1
+            if w.depth == 0:
+                _fops('adjust', '%d %s %s %s %d %s' % (sid_of(servername), st0.value, _i(since0), _rec_tok(rec),
+                                                       1 if present else 0, _i(now)), i0, lvl)
             st1, since1 = srv.get_state()
             recs = [c for c in w.rec_calls[n0:] if c[0] == servername]
             exp = '%s %s %s' % (st1.value, _i(since1),
@@ -968,11 +1078,25 @@ def _install(w):
                 finally:
                     w.in_reload -= 1
                     self.backend.zkclient.vanish_on_read = None
+            fon = _fops_on(self)
+            lvl, i0, v0 = w.fops_lvl, len(w.run.lines), len(w.vu_log)
+            if fon:
+                placed = ','.join('%d:%d' % (aid_of(a), 1 if self.backend.exists(z.path.placement(servername, a)) else 0)
+                                  for a in (list(cur.apps) if cur is not None else [])) or '-'
+                ftok = '%d %s %s %s' % (sid_of(servername), cur_s, placed, _load_in(self, servername))
             w.in_reload += 1
+            w.fops_lvl += 1
             try:
                 r = orig(self, servername)
+            except AssertionError:
+                if fon:
+                    _fops('reload', '%s %s' % (ftok, _vu_tok(servername, v0)), i0, lvl, expected='assertion')
+                raise
             finally:
                 w.in_reload -= 1
+                w.fops_lvl -= 1
+            if fon:
+                _fops('reload', '%s %s' % (ftok, _vu_tok(servername, v0)), i0, lvl)
             now = self.servers.get(servername)
             made = w.created[c0:]
             rec_s = '~'
@@ -1000,7 +1124,20 @@ def _install(w):
             before = sorted((sid_of(n), s.state.value) for n, s in self.servers.items())
             present = sorted(sid_of(n) for n in servers if n in self.servers)
             a0, r0 = len(w.adj_log), len(w.reload_log)
-            r = orig(self, servers)
+            fon = _fops_on(self) and w.fops_lvl == 0
+            i0 = len(w.run.lines)
+            if fon:
+                w.pres_subs = []
+                w.fops_lvl = 1
+            try:
+                r = orig(self, servers)
+            finally:
+                subs, w.pres_subs = w.pres_subs, None
+                if fon:
+                    w.fops_lvl = 0
+            if fon:
+                _fops('presence', ' '.join(['%s %s' % (','.join('%d:%s' % p for p in before) or '-',
+                                                        ','.join(str(i) for i in present) or '-')] + subs), i0, 0)
             reloaded = set(w.reload_log[r0:])
             down = {n for n, nested in w.adj_log[a0:] if not nested and n not in reloaded}
             w.run.op('fpres %s %s' % (','.join('%d:%s' % p for p in before) or '-',
@@ -1269,6 +1406,54 @@ def _install(w):
         return find_assignment
     patch(Loader, 'find_assignment', mk_find_assignment)
 
+    def _load_app_in(self, appname, manifest):
+        """What load_app looks at besides the manifest, before the call: the assignments of the instance's proid
+        (pattern matches?, priority, allocation OBJECT - resolved to the model's id after the call, without
+        interning), the blacklist matches.  None: a manifest this tie does not decode."""
+        import fnmatch as _fn
+        try:
+            key = w.loader_mod._alloc_key(appname)                        # pylint: disable=protected-access
+            asg = [(bool(pat.match(appname)), prio, al) for pat, prio, al in (self.assignments.get(key) or [])]
+            base = appname.split('#')[0]
+            bl = [bool(_fn.fnmatch(base, b)) for b in self.apps_blacklist]
+            if manifest:
+                w.loader_mod._get_data_retention(manifest)                # pylint: disable=protected-access
+                w.loader_mod._get_lease(manifest)                         # pylint: disable=protected-access
+                int(manifest.get('priority', 0))
+        except Exception:  # pylint: disable=broad-except
+            return None
+        return asg, bl
+
+    def _manifest_tok(manifest):
+        if not manifest:
+            return '~'
+        lm = w.loader_mod
+        dem = lm.resources(manifest)
+        lim = manifest.get('affinity_limits') or {}
+        lims = ','.join('%d:%d' % (_lvl(k), v) for k, v in sorted(lim.items(), key=lambda kv: _lvl(kv[0]))) or '-'
+        grp = manifest.get('identity_group')
+        ret = lm._get_data_retention(manifest)                            # pylint: disable=protected-access
+        mask = orig_encode(dict(w.m.trait_codes), manifest.get('traits', []), use_invalid=True)[0]
+        return '/'.join([
+            '%d' % int(manifest['priority']) if 'priority' in manifest else '~',
+            '%d,%d,%d' % (int(dem[0]), int(dem[1]), int(dem[2])),
+            '%d' % w.aff_id.get(manifest.get('affinity'), 0), lims,
+            '%d' % int(grp[1:]) if grp else 'none', '1' if manifest.get('schedule_once') else '0',
+            'none' if ret is None else '%d' % int(ret), '%d' % int(lm._get_lease(manifest)), '%d' % mask])
+
+    def _assign_tok(self, appname, fin):
+        asg, bl = fin
+        part = self.cell.partitions.get('_default') if hasattr(self.cell.partitions, 'get') else None
+        dflt = None
+        if part is not None:
+            un = part.allocation.sub_allocations.get('_default')
+            if un is not None:
+                dflt = un.sub_allocations.get(appname.split('.', 1)[0])
+        return '%s %d %s' % (
+            ','.join('%d:%d:%d' % (1 if mt else 0, prio, w.alloc_id.get(id(al), 0)) for mt, prio, al in asg) or '-',
+            w.alloc_id.get(id(dflt), 0) if dflt is not None else 0,
+            ','.join('1' if b else '0' for b in bl) or '-')
+
     def mk_load_app(orig):
         def load_app(self, appname):
             if not _live(self):
@@ -1277,7 +1462,18 @@ def _install(w):
             existed = appname in self.cell.apps
             w.load_calls.append(appname)
             w.last_assign = None
-            r = orig(self, appname)
+            fon = _fops_on(self)
+            lvl, i0 = w.fops_lvl, len(w.run.lines)
+            if fon:
+                fin = _load_app_in(self, appname, manifest)
+            w.fops_lvl += 1
+            try:
+                r = orig(self, appname)
+            finally:
+                w.fops_lvl -= 1
+            if fon and fin is not None:
+                _fops('loadapp', '%d %s %d %s' % (aid_of(appname), _manifest_tok(manifest), 1 if existed else 0,
+                                                  _assign_tok(self, appname, fin)), i0, lvl)
             app = self.cell.apps.get(appname)
             if not manifest or app is None or w.last_assign is None or w.last_assign[0] != appname:
                 return r
@@ -1291,6 +1487,24 @@ def _install(w):
             return r
         return load_app
     patch(Loader, 'load_app', mk_load_app)
+
+    def mk_bl_event(orig):
+        def _handle_apps_blacklist_event(self, node_name):
+            if not _fops_on(self):
+                return orig(self, node_name)
+            import fnmatch as _fn
+            new = list(self.backend.get_default(z.BLACKEDOUT_APPS) or [])
+            names = list(self.cell.apps)
+            tok = ','.join('%d:%s' % (aid_of(n), ''.join('1' if _fn.fnmatch(n.split('#')[0], b) else '0' for b in new) or '-')
+                           for n in names) or '-'
+            r = orig(self, node_name)
+            w.run.op('fops blacklist ' + tok,
+                     ','.join('%d:%d' % (aid_of(n), 1 if self.cell.apps[n].blacklisted else 0)
+                              for n in names if n in self.cell.apps) or '-')
+            w.stats['fops:blacklist'] += 1
+            return r
+        return _handle_apps_blacklist_event
+    patch(Master, '_handle_apps_blacklist_event', mk_bl_event)
 
     def mk_load_bucket(orig):
         def load_bucket(self, bucketname):
@@ -1328,8 +1542,22 @@ def _install(w):
                 stored.append('%d:%s' % (int(name[1:]), 'e' if not ident else
                                          ('n' if 'count' not in ident else '%d' % ident['count'])))
             n0 = len(w.idg_calls)
+            fon, i0 = _fops_on(self), len(w.run.lines)
             r = orig(self)
             calls = w.idg_calls[n0:]
+            if fon:
+                # (both loops of load_identity_groups iterate Python sets: within each group of calls the
+                # recorded lines are compared in the order of the ids)
+                got = [c_ for c_ in _calls_since(i0).split(';') if c_ != '-']
+                rm_ = sorted((c_ for c_ in got if c_.startswith('rmidg ')), key=lambda t: int(t.split(' ')[1]))
+                n_rm = 0
+                while n_rm < len(got) and got[n_rm].startswith('rmidg '):
+                    n_rm += 1
+                rest_ = got[n_rm:]
+                if all(c_.startswith('idg ') for c_ in rest_):
+                    rest_ = sorted(rest_, key=lambda t: int(t.split(' ')[1]))
+                _fops('idg', '%s %s' % (','.join(str(i) for i in existing) or '-', ','.join(stored) or '-'), i0, 0,
+                      expected=';'.join(rm_[:n_rm] + rest_) or '-')
             w.run.op('fidg %s %s' % (','.join(str(i) for i in existing) or '-', ','.join(stored) or '-'),
                      'rm=%s cfg=%s' % (
                          ','.join(str(i) for i in sorted(int(c[1][1:]) for c in calls if c[0] == 'rm')) or '-',
